@@ -79,19 +79,58 @@ func main() {
 			}
 			return
 		}
+		shm := transx.ShmAvailable(dir)
+		if !shm {
+			c.Note("/dev/shm is not a separate writable device: cross-device renames are only injected")
+		}
 		n := c.Size(500, 25000)
 		for i := 0; i < n; i++ {
 			g := &transx.Gen{R: c.R}
 			sc := g.GenScenario(!c.R.Chance(1, 6), c.R.Chance(1, 3))
 			var faults []transx.Fault
-			if c.R.Chance(1, 3) {
+			// Cross-device transitions: the first rename of a staged file reports
+			// EXDEV (injected through the hook, or for real with the staging area on
+			// /dev/shm) — always tried when content was put, after the scan, at a
+			// path where the plan creates something, and now and then otherwise.
+			var xdev []transx.Fault
+			if len(sc.Squats) > 0 {
+				c.Count("squat")
+				switch r := c.R.Intn(4); {
+				case r == 0:
+				case r == 1 && shm:
+					sc.ShmStaging = true
+				default:
+					for _, p := range sc.Squats {
+						xdev = append(xdev, transx.Fault{Op: "rename", Name: transx.Leaf(p), K: 0, Act: 'x'})
+					}
+				}
+			} else if names := transx.FileCreationNames(sc.Plan); len(names) > 0 && c.R.Chance(1, 8) {
+				if shm && c.R.Chance(1, 2) {
+					sc.ShmStaging = true
+				} else {
+					xdev = append(xdev, transx.Fault{Op: "rename", Name: names[c.R.Intn(len(names))], K: 0, Act: 'x'})
+				}
+			}
+			if sc.ShmStaging {
+				if sc.Cfg.FileMode == 0 {
+					sc.Cfg.FileMode = 0o600
+				}
+				c.Count("real-cross-device")
+			}
+			if len(xdev) > 0 {
+				c.Count("injected-exdev")
+			}
+			if c.R.Chance(1, 3) && (sc.Derived || len(xdev) == 0) {
 				// Learn the fault points from a fault-free run, then inject one or two.
-				cs, err := transx.Build(sc, dir, nil)
+				cs, err := transx.Build(sc, dir, xdev)
 				if err != nil {
 					harnessError("harness-error", err)
 					continue
 				}
 				o, err := transx.Run(cs)
+				if cs.Cleanup != nil {
+					cs.Cleanup()
+				}
 				if err == nil {
 					// The permission call that follows the creation of a link is the
 					// fault point of the C09 finding (fixes/C09.patch); it plays no role
@@ -121,11 +160,25 @@ func main() {
 						if !sc.Derived && (f.Act == 'c' || f.Op == "readdir") {
 							continue
 						}
+						if sc.ShmStaging && f.Op == "rename" && f.Act != 'f' {
+							// a really cross-device rename cannot also cancel or be told to report EXDEV
+							f.Act = 'f'
+						}
+						dup := false
+						for _, x := range xdev {
+							if x.Op == f.Op && x.Name == f.Name && x.K == f.K {
+								dup = true
+							}
+						}
+						if dup {
+							continue
+						}
 						faults = append(faults, f)
 					}
 				}
 				c.Count("with-faults")
 			}
+			faults = append(xdev, faults...)
 			cs, err := transx.Build(sc, dir, faults)
 			if err != nil {
 				harnessError("harness-error", err)
@@ -141,6 +194,9 @@ func main() {
 				c.Count("has-protected")
 			}
 			run(cs, sc)
+			if cs.Cleanup != nil {
+				cs.Cleanup()
+			}
 		}
 	})
 }
